@@ -257,6 +257,43 @@ Definition hist_check (h : list call) : bool := forallb call_check h.
 (* for the replay file: which calls of the history agree *)
 Definition hist_explain (h : list call) : list bool := map call_check h.
 
+(* --- count boundaries: one call on MANY rows (255 .. 70000) drawn from a few distinct (key, block) pairs *)
+(* The rows of the big call are given run-length encoded: (index of the distinct row, how many times), in order.  The distinct rows
+   travel as an ordinary small case (validated by the ordinary check against the spec and the model); the expected big result is
+   the small result expanded along the runs.  Of the big result the harness exports its shape and some rows (first / last
+   occurrence of every distinct pair, the last rows, a sample, the first row that differs if any). *)
+Definition expand {A} (d : A) (rows : list A) (runs : list (nat * N)) : list A :=
+  flat_map (fun r => repeat (nth (fst r) rows d) (N.to_nat (snd r))) runs.
+Definition runs_total (runs : list (nat * N)) : N := fold_right (fun r a => snd r + a) 0 runs.
+Definition runs_ok (n : nat) (runs : list (nat * N)) : bool := forallb (fun r => Nat.ltb (fst r) n) runs.
+
+Record count_case := { cn_base : cipher_case; cn_runs : list (nat * N); cn_shape : list N; cn_rows : list (N * N) }.
+Definition count_check (c : count_case) : bool :=
+  let b := cn_base c in
+  let vals := nth 0 (dc_obs b) [] in
+  let e := expand 0 vals (cn_runs c) in
+  let total := runs_total (cn_runs c) in
+  cipher_check b && Nat.eqb (length (dc_stops b)) 1
+  && (dc_key_many b || dc_block_many b) && N.leb 2 total
+  && runs_ok (length vals) (cn_runs c)
+  && nlist_eqb (cn_shape c) [total; 8]
+  && forallb (fun x => N.ltb (fst x) total && N.eqb (nth (N.to_nat (fst x)) e 0) (snd x)) (cn_rows c).
+Definition count_expected (c : count_case) : list (N * N) :=
+  let e := expand 0 (nth 0 (dc_obs (cn_base c)) []) (cn_runs c) in
+  map (fun x => (fst x, nth (N.to_nat (fst x)) e 0)) (cn_rows c).
+
+(* the same for a primitive / key_schedule: pn_in = the distinct input rows, pn_total = first dimension of the result,
+   pn_rows = (row number, the row of the result as limbs) *)
+Record prim_count_case := { pn_prim : prim; pn_in : list N; pn_runs : list (nat * N); pn_total : N; pn_rows : list (N * list N) }.
+Definition prim_count_check (c : prim_count_case) : bool :=
+  let rows := map (unpack (prim_nin (pn_prim c))) (pn_in c) in
+  let es := expand [] (map (fun r => pack_limbs (prim_spec (pn_prim c) r)) rows) (pn_runs c) in
+  let em := expand [] (map (fun r => pack_limbs (prim_model (pn_prim c) r)) rows) (pn_runs c) in
+  let total := runs_total (pn_runs c) in
+  runs_ok (length rows) (pn_runs c) && N.eqb (pn_total c) total
+  && forallb (fun x => N.ltb (fst x) total && nlist_eqb (nth (N.to_nat (fst x)) es []) (snd x)
+                       && nlist_eqb (nth (N.to_nat (fst x)) em []) (snd x)) (pn_rows c).
+
 (* ------------------------------------------------------------------ vocabulary of the statements (Props/C06.v) *)
 (* the two kinds of key argument the library accepts *)
 Definition master_key (key : list N) : Prop :=
